@@ -32,7 +32,34 @@ func main() {
 	verif := flag.String("verif", "/verif", "verif directory (evidence, known findings)")
 	list := flag.Bool("list", false, "list armed properties")
 	overlayFile := flag.String("overlay", "", "JSON file {path: replacement-file} analysed instead of the working tree file (self-test only)")
+	explain := flag.String("explain", "", "violations file written by an earlier run: print each recorded violation, then re-run the property's check on the current tree")
 	flag.Parse()
+	if *explain != "" {
+		b, err := os.ReadFile(*explain)
+		if err != nil {
+			fmt.Println(err)
+			os.Exit(2)
+		}
+		var v struct {
+			Property   string `json:"property"`
+			Violations []Ob   `json:"violations"`
+			Undecided  []Ob   `json:"undecided"`
+		}
+		if err := json.Unmarshal(b, &v); err != nil {
+			fmt.Println(err)
+			os.Exit(2)
+		}
+		for _, o := range v.Violations {
+			fmt.Printf("recorded violation %s at %s — %s\n", o.Key(), o.Pos, o.Detail)
+		}
+		for _, o := range v.Undecided {
+			fmt.Printf("recorded undecided %s at %s — %s\n", o.Key(), o.Pos, o.Detail)
+		}
+		if *prop == "" {
+			*prop = v.Property
+		}
+		fmt.Println("re-running the check on the current tree:")
+	}
 	if *list {
 		var ids []string
 		for id := range props {
@@ -65,6 +92,9 @@ func main() {
 		defer func() {
 			if e := recover(); e != nil {
 				fmt.Printf("checker panic (undecided): %v\n%s\n", e, debug.Stack())
+				os.MkdirAll(*verif+"/evidence", 0o755)
+				vb, _ := json.Marshal(map[string]interface{}{"property": pd.ID, "undecided": []Ob{{Rule: "checker", Func: "-", Construct: "panic", Pos: "-", Status: Undecided, Detail: fmt.Sprint(e)}}})
+				os.WriteFile(*verif+"/evidence/"+pd.ID+".violations.json", vb, 0o644)
 				fmt.Printf("VIOLATION property=%s replay=%s/evidence/%s.violations.json\n", pd.ID, *verif, pd.ID)
 				code = 1
 			}
@@ -85,6 +115,9 @@ func main() {
 				code = 3 // variant does not type-check: skipped by the self-test
 				return
 			}
+			os.MkdirAll(*verif+"/evidence", 0o755)
+			vb, _ := json.Marshal(map[string]interface{}{"property": pd.ID, "undecided": []Ob{{Rule: "checker", Func: "-", Construct: "load", Pos: "-", Status: Undecided, Detail: err.Error()}}})
+			os.WriteFile(*verif+"/evidence/"+pd.ID+".violations.json", vb, 0o644)
 			fmt.Printf("VIOLATION property=%s replay=%s/evidence/%s.violations.json\n", pd.ID, *verif, pd.ID)
 			code = 1
 			return
@@ -99,7 +132,7 @@ func main() {
 				}
 			}
 			r.Extra["whole_module_load"] = true
-			st := runSelfTest(r, *repo, seed, max)
+			st := runSelfTest(r, *repo, *verif, seed, max)
 			r.Extra["selftest"] = st
 			if dir := os.Getenv("VERIF_SELFTEST_DIR"); dir != "" {
 				if b, err := json.MarshalIndent(st, "", " "); err == nil {
